@@ -11,11 +11,13 @@ import (
 	"pgregory.net/rapid"
 
 	"verifharness/bgen"
+	"verifharness/fc"
 	"verifharness/h"
 	ref "verifharness/ref/bech32"
 )
 
 func TestMain(m *testing.M) {
+	h.FirstCallsChild(fc.Bech32()) // never returns in a first-call child process
 	if err := ref.SelfCheck(); err != nil {
 		fmt.Println("VERIF-INFRA reference self-check failed:", err)
 		panic(err)
@@ -293,3 +295,6 @@ func FuzzDecode(f *testing.F) {
 func FuzzGenDecode(f *testing.F) {
 	h.FuzzSub(f, h.Sub[strCase]{Prop: "C04", Name: "decode", Gen: genDecode, Check: checkDecode})
 }
+
+// which public entry point is called first in a process (and by how many goroutines at once)
+func TestFirstCalls(t *testing.T) { h.FirstCallsSub(t, "C04", fc.Bech32(), 6) }
